@@ -93,3 +93,14 @@ Proof. vm_compute. reflexivity. Qed.
 Example filtered_results_would_be_stale :
   stale_in_model key_fields (FlagChecks :: relevant_assumed) FlagChecks = true.
 Proof. vm_compute. reflexivity. Qed.
+
+(* the set of named packages changes: a package first reached only as a dependency (vetx stored, no results)
+   and later named is analysed again (1 analysis: results sub-key missing) and yields the cold result *)
+Definition w_dep_only : world nat := [mkPkg 0 [] false loc1; mkPkg 1 [0] false loc1; mkPkg 2 [1] false loc1].
+Definition w_all_named : world nat := [mkPkg 0 [] true loc1; mkPkg 1 [0] true loc1; mkPkg 2 [1] true loc1].
+Example dependency_then_named :
+  count_n w_all_named (fst (run_n key_fields relevant_assumed w_dep_only empty)) = 3 /\
+  outs_eqb (snd (run_n key_fields relevant_assumed w_all_named (fst (run_n key_fields relevant_assumed w_dep_only empty))))
+           (snd (run_n key_fields relevant_assumed w_all_named empty)) = true /\
+  count_n w_dep_only (fst (run_n key_fields relevant_assumed w_all_named empty)) = 0.
+Proof. vm_compute. repeat split; reflexivity. Qed.
